@@ -202,7 +202,7 @@ def scenario_features(s):
     if s is None:
         return f
     o = s.get("opts", {})
-    if o.get("restart") in ("const", "luby", "geom") and o.get("restart_base", 50) <= 2 \
+    if o.get("restart") in ("const", "luby", "geom") and o.get("restart_base", 50) <= 3 \
             and o.get("restart_min_conflicts", 10000) <= 2 and o.get("high_lbd_limit", 4000) <= 4:
         f["restart_every_conflict_no_db"] = True
     for st in s["steps"]:
@@ -311,10 +311,14 @@ class Result:
         self.violations.append((label, payload))
 
 
-def tv_part(res, fams, count, seed, tier, name, min_events=None, label_filter=None, adopt=None):
+def tv_part(res, fams, count, seed, tier, name, min_events=None, label_filter=None, adopt=None,
+            recorder=None):
     """Trace validation of `count` scenarios of each family."""
     d = workdir("%s_%s" % (res.prop, name))
-    trace, scnf = record(fams, seed, tier, count, d)
+    if recorder:
+        trace, scnf = recorder(d)
+    else:
+        trace, scnf = record(fams, seed, tier, count, d)
     scns = load_scenarios(scnf)
     counts = event_counts(trace)
     out = tlc_trace(trace, os.path.join(d, "meta"))
@@ -408,7 +412,8 @@ def finish(res, tier, seed, level, t0):
     cov = res.cov
     cov["known_finding_hits"] = len(res.known)
     cov["other_property_notes"] = dict(res.notes)
-    cov["rule"] = ("scenarios are generated from (seed, tier, family, index); distinct = distinct step lists; "
+    cov.setdefault("rule", "")
+    cov["rule"] = cov["rule"] or ("scenarios are generated from (seed, tier, family, index); distinct = distinct step lists; "
                    "every scenario is executed by the real solver and its complete event trace is validated "
                    "by TLC against spec/Trace.tla")
     cov["exhaustive"] = False
@@ -488,6 +493,43 @@ def check_C09(res, tier, seed):
             adopt=adopt_for("C09"))
 
 
+def check_C07(res, tier, seed):
+    # each model is solved under 8 configurations; every answer is compared with the single
+    # oracle Sol(M) (equal to the oracle for all configurations => equal to each other)
+    adopt = {"C02.UnsatRight": "C07.Verdict", "C01.SolutionHolds": "C07.Verdict", "C01.Total": "C07.Verdict",
+             "C03.IsSolution": "C07.SolutionSet", "C03.Complete": "C07.SolutionSet",
+             "C03.NoRepeat": "C07.SolutionSet", "C03.EndKind": "C07.Verdict",
+             "C04.OptimalIsBest": "C07.Optimum", "C04.OptimalIsSolution": "C07.Optimum",
+             "C04.UnsatRight": "C07.Verdict", "C02.NoTermination": "C07.Termination",
+             "C10.NoHang": "C07.Termination", "C10.NoPanic": "C07.Panic"}
+    out, counts = tv_part(res, ["configs"], n(tier, 160, 1600), seed, tier, "configs", adopt=adopt,
+                          min_events={"Learned": 50, "Restart": 5, "NogoodDeleted": 3, "Flip": 5})
+    res.cov["config_axes_exercised"] = {k: counts.get(k, 0) for k in
+                                        ("Learned", "Restart", "NogoodDeleted", "NogoodAdded", "Flip", "Minimise")}
+
+
+def check_C11(res, tier, seed):
+    adopt = {"C02.UnsatRight": "C11.FalseDefinitive", "C04.UnsatRight": "C11.FalseDefinitive",
+             "C04.OptimalIsBest": "C11.FalseDefinitive", "C04.OptimalIsSolution": "C11.FalseDefinitive",
+             "C01.SolutionHolds": "C11.FalseDefinitive", "C03.Complete": "C11.FalseDefinitive",
+             "C03.IsSolution": "C11.FalseDefinitive", "C03.EndKind": "C11.FalseDefinitive",
+             "C10.NoPanic": "C11.Panic", "C10.NoHang": "C11.Hang", "C10.BackAtRoot": "C11.NotUsableAgain",
+             "C04.CallbackIsSolution": "C11.BestIsSolution"}
+
+    def rec(d):
+        build_harness()
+        trace = os.path.join(d, "t.ndjson")
+        scn = os.path.join(d, "t.scn.ndjson")
+        sh([PVH, "interrupt", "--seed", str(seed), "--tier", tier, "--count", str(n(tier, 30, 300)),
+            "--maxk", str(n(tier, 30, 120)), "--out", trace, "--scn", scn], timeout=3000)
+        return trace, scn
+    out, counts = tv_part(res, [], 0, seed, tier, "interrupt", adopt=adopt, recorder=rec,
+                          min_events={"Return": 200})
+    res.cov["rule"] = ("fault enumeration: for each base scenario the number of polls P of the uninterrupted "
+                       "operation is measured, then the operation is re-run with the termination condition "
+                       "firing at poll k for every k in 0..P (sampled if P is large) and retried afterwards")
+
+
 def check_C10(res, tier, seed):
     tv_part(res, ["history"], n(tier, 60, 600), seed, tier, "history")
 
@@ -512,6 +554,8 @@ CHECKS = {
     "C03": (check_C03, "model_checking"),
     "C04": (check_C04, "model_checking"),
     "C05": (check_C05, "model_checking"),
+    "C07": (check_C07, "model_checking"),
+    "C11": (check_C11, "fault_enumeration"),
     "C08": (check_C08, "model_checking"),
     "C09": (check_C09, "model_checking"),
     "C10": (check_C10, "model_checking"),
